@@ -171,3 +171,61 @@ def sect(run, fn, *a, **k):
     del run.obls[n0:]
     run.out_of_reach.append({"section": getattr(fn, "__name__", str(fn)), "reason": reason[:400]})
     return None
+
+
+def local_roles(func):
+    """Facts about a function's locals, from its AST, so that loop contracts can bind by use instead of by name:
+      returned        names appearing as `return <name>`
+      appended        names x with a call x.append(...) anywhere
+      aug_added       names x with `x += ...`
+      assigned_call   {attr-or-function name: [local names assigned from a call of it]}  (e.g. 'monotonic_ns' -> ['t_next', 't'])
+      order           first assignment line of each local"""
+    import ast
+    node = func_ast(func)[0]
+    r = {"returned": [], "appended": [], "aug_added": [], "assigned_call": {}, "order": {}}
+    for n in ast.walk(node):
+        if isinstance(n, ast.Return) and isinstance(n.value, ast.Name) and n.value.id not in r["returned"]:
+            r["returned"].append(n.value.id)
+        if isinstance(n, ast.Call) and isinstance(n.func, ast.Attribute) and n.func.attr == "append" and isinstance(n.func.value, ast.Name) \
+                and n.func.value.id not in r["appended"]:
+            r["appended"].append(n.func.value.id)
+        if isinstance(n, ast.AugAssign) and isinstance(n.op, ast.Add) and isinstance(n.target, ast.Name) and n.target.id not in r["aug_added"]:
+            r["aug_added"].append(n.target.id)
+        if isinstance(n, ast.Assign) and len(n.targets) == 1 and isinstance(n.targets[0], ast.Name):
+            nm = n.targets[0].id
+            r["order"].setdefault(nm, n.lineno)
+            if isinstance(n.value, ast.BinOp) and isinstance(n.value.op, ast.Add) and nm not in r["aug_added"] and \
+                    any(isinstance(x, ast.Name) and x.id == nm for x in (n.value.left, n.value.right)):
+                r["aug_added"].append(nm)          # x = x + ... is the same advance as x += ...
+            v = n.value
+            while isinstance(v, ast.Call):
+                fn = v.func.attr if isinstance(v.func, ast.Attribute) else (v.func.id if isinstance(v.func, ast.Name) else None)
+                if fn:
+                    r["assigned_call"].setdefault(fn, [])
+                    if nm not in r["assigned_call"][fn]:
+                        r["assigned_call"][fn].append(nm)
+                v = v.args[0] if v.args and isinstance(v.args[0], ast.Call) else None
+    return r
+
+
+def bind_props(E, obj):
+    """State a contract gives to a symbolic object under the name the class now exposes as a *property* (a representation change:
+    `_rx_freq` kept in a list, `clck_src` derived from a base and a counter, ...) is installed through the property's own setter, on top
+    of the representation a live object of the class has (template attributes).  Attributes that are plain stay as given."""
+    if not isinstance(obj, SObj):
+        return obj
+    for name in list(obj.attrs):
+        raw_ = inspect.getattr_static(obj.cls, name, None)
+        if isinstance(raw_, property):
+            v = obj.attrs.pop(name)
+            if raw_.fset is None:
+                raise Unsupported("contract state %s.%s is a read-only property now" % (obj.cls.__name__, name))
+            E.call(raw_.fset, [obj, v])
+    return obj
+
+
+def cur_attr(E, obj, name):
+    """current value of an attribute of a symbolic object as the CODE sees it (through a property getter if the class has one)"""
+    if isinstance(obj, SObj) and name in obj.attrs:
+        return obj.attrs[name]
+    return E.getattr(obj, name)
